@@ -254,7 +254,7 @@ func runG6(c *vrt.Ctx) {
 			ids, kind = randomIDs(r, n), "arbitrary"
 		}
 		g6case(c, t, j.directed, n, ids, func(i, k int) bool { return a[i*n+k] }, kind)
-		if c.WantSample() && n == 63 {
+		if c.WantSample() && n == 63 && j.rep == 2 {
 			c.Sample(map[string]any{"codec": map[bool]string{false: "graph6", true: "digraph6"}[j.directed], "order": n, "density": dens, "encoding_prefix": clipS(chk.EncodeRefG6(n, j.directed, func(i, k int) bool { return a[i*n+k] }), 24)})
 		}
 		total.merge(t)
